@@ -115,13 +115,20 @@ def gen_expr(rng, types, want, depth):
     return {'op': c, 'a': gen_expr(rng, types, ta, depth - 1), 'b': gen_expr(rng, types, tb, depth - 1)}
 
 
-def to_column(ast, names):
-    """build the pysparkling Column for an expression AST"""
+def to_column(ast, names, cache=None):
+    """build the pysparkling Column for an expression AST. With `cache` (a dict), the SAME Column object is used for every
+    reference to a column name across the whole chain - as a program that keeps `v = col("v")` around does - so that a
+    reference must be resolved against the frame it is evaluated on, not the one it was first used with"""
     from pysparkling.sql import functions as F
     op = ast['op']
-    sub = lambda k: to_column(ast[k], names)  # noqa: E731
+    sub = lambda k: to_column(ast[k], names, cache)  # noqa: E731
     if op == 'col':
-        return F.col(names[ast['i']])
+        name = names[ast['i']]
+        if cache is None:
+            return F.col(name)
+        if name not in cache:
+            cache[name] = F.col(name)
+        return cache[name]
     if op == 'lit':
         return F.lit(sv_back(ast['v']))
     if op == 'neg':
